@@ -301,7 +301,10 @@ impl World {
         }
         match NATIVES.iter().position(|d| *d == denom) {
             Some(i) => 2 * i as u64,
-            None => 2 * parse_suffix(denom, "junk"),
+            None => match denom.strip_prefix("junk").and_then(|x| x.parse::<u64>().ok()) {
+                Some(j) if j < 1_000_000 => 2 * j,
+                _ => 2 * 999_999, // a key no honest history creates (e.g. a voucher string used as a local key)
+            },
         }
     }
     fn denom_of_key(&self, k: u64) -> String {
@@ -673,6 +676,18 @@ impl World {
             app.wasm_sudo(ics.clone(), &SudoMsg::RawSet { key: Binary::from(key.to_vec()), value: Binary::from(value) }).unwrap();
         };
         set(&mut self.app, b"contract_info", info.into_bytes());
+        if v == 1 || v == 2 {
+            // old versions did not keep the channel balances reconciled with the escrow: take something off
+            // one entry so that migrate's update_balances has something to repair
+            let o = self.observe();
+            if let Some((c, k, out, tot)) = o.chan.iter().find(|e| e.2 > 0).cloned() {
+                let d = out / 2 + 1;
+                let d = d.min(out).min(tot);
+                let key = cw20_ics20::state::CHANNEL_STATE.key((&chan_name(c), &self.denom_of_key(k))).to_vec();
+                let val = format!("{{\"outstanding\":\"{}\",\"total_sent\":\"{}\"}}", out - d, tot - d);
+                set(&mut self.app, &key, val.into_bytes());
+            }
+        }
         if v == 1 {
             // the pre-allow-list layout: v1 config (with the governance address inside), no admin entry, no allow list
             let o = self.observe();
